@@ -22,6 +22,10 @@ CHECKS = {
    text="Every key of the default table is imported in 4 forms plus ImportUsed and a symbol used; unsafe, syscall and os/exec are tried in 7 forms and must fail; every function value of a live restricted interpreter's table is compared by code pointer with os.Exit, log.Fatal*, (*log.Logger).Fatal*, the os environment functions, log.Default/New, and its results scanned for raw *log.Logger; every exit entry point of the override list is run in a child process (death of the child is the refuting event) with and without recover, and the interpreter must stay usable; seeded sequences of Setenv/Unsetenv/Clearenv/Getenv/LookupEnv/Environ/ExpandEnv are compared with a map model while the host environment (with a canary variable) is snapshotted; every redirected fmt/print/log/scan/os.Args/flag function runs in a child whose real fd 0/1/2 are canary files; three interpreters with different streams, arguments and environments, one of them unrestricted, must not influence each other or a restricted interpreter created later.",
    note="Trusted: the child-process liveness signal and file sizes of the canary descriptors. Direct use of os.Stdout/os.Stderr by a script is documented by yaegi as outside the virtualisation and is not probed. Known findings C13-F1..F3.",
    design="2/C13"),
+ "C14": dict(technique="invariant walk of the live symbol tables at a quiescent point against a compiled-in reference (independent go/types + GOROOT/api enumerator); wrapper forwarding exercised with reflect.MakeFunc recorders",
+   text="Every entry of the tables that this toolchain can load (stdlib.Symbols from go1_22_*.go: 154 packages; stdlib/unrestricted; stdlib/syscall for linux/amd64; stdlib/unsafe) is compared with the identically named object of the reference: functions by code pointer, variables by address, types by reflect.Type, typed constants by value and type, untyped constants exactly (floats: agreement to 200 bits and exactness as two cells); restricted replacements must be exactly the functions of restricted.go; missing and surplus names are judged against GOROOT/api up to go1.22. Every method of every generated interface wrapper (179 wrappers, 434 methods) is called with drawn arguments on an instance whose W fields are recorders: exactly the same-named recorder must see exactly those arguments and its results must come back unchanged; String() with nil WString must return the empty string. The space is finite and walked completely in both tiers.",
+   note="NOT observed (cannot be executed on this machine by the installed toolchains): go1_21_*.go (constraint go1.21 && !go1.22) and the syscall/unrestricted tables of every platform other than linux/amd64 - about 165 000 of the 187 000 bindings, almost all integer constants of foreign platforms. Trusted: the committed reference generated by harness/cmd/genref from GOROOT. Known finding C14-F1.",
+   design="2/C14"),
 }
 NOT_YET = {}
 def main():
